@@ -666,6 +666,37 @@ def check_c14(seed, tier):
                 viol.append({"case": {"cfg": cfg, "extra_lines": extra, "eol": eol}, "what": f"well-formed summary rejected: {type(e).__name__}: {e}"[:300], "key": common.failure_site(e) if isinstance(e, Exception) else None})
             finally:
                 clean()
+        # blank / whitespace-only lines are malformed lines like any other — also the first and the last line of the text
+        # (whatever "tidying" of the text as a whole would hide them)
+        base_lines = list(prod.summary_text.split("\n")[:-1])
+        for where, filler in (("end", ""), ("start", ""), ("end", "  "), ("start", " \t"), ("both", ""), ("end-twice", "")):
+            ls = list(base_lines)
+            if where == "end":
+                ls, want_bad = ls + [filler], [len(ls)]
+            elif where == "start":
+                ls, want_bad = [filler] + ls, [0]
+            elif where == "both":
+                ls, want_bad = [filler] + ls + [filler], [0, len(ls) + 1]
+            else:
+                ls, want_bad = ls + [filler, filler], [len(ls), len(ls) + 1]
+            for eol in ("\n", "\r\n"):
+                prod.files["summary.txt"] = (eol.join(ls) + eol).encode()
+                path, clean = products.place(prod, "memory")
+                evals += 1
+                distinct.add((cfg["seed"], "blank-line", where, filler, eol))
+                case = {"cfg": cfg, "blank_line_at": where, "content": repr(filler), "eol": repr(eol)}
+                try:
+                    _open(path)
+                    viol.append({"case": case, "what": f"a summary with blank line(s) {want_bad} was accepted"})
+                except BaseException as e:  # noqa: BLE001
+                    if type(e).__name__ == "ExceptionGroup":
+                        named = sorted(int(str(s_.args[0]).split(":")[0].replace("line", "")) for s_ in e.exceptions)
+                        if named != want_bad:
+                            viol.append({"case": case, "what": f"error names lines {named}, the blank lines are {want_bad}"})
+                    else:
+                        viol.append({"case": case, "what": f"raised {type(e).__name__} instead of one error group: {e}"[:200]})
+                finally:
+                    clean()
         # corrupted lines: one error group naming every offending line and no others
         ls = list(prod.summary_text.split("\n")[:-1])
         badset = sorted(rng.sample(range(len(ls)), rng.randint(1, 4)))
